@@ -275,8 +275,11 @@ Next ==
   \/ \E i \in Slots : CopyNull(i) \/ Fini(i)
   \/ \E i \in Slots, m \in Maxes : Make(i, m + 4, "init", m)
   \/ \E i \in Slots : Make(i, TraitsMax + 4, "macro", TraitsMax) \/ Make(i, TraitsMax + 4, "nodemacro", TraitsMax)
-  \/ \E i \in Slots, k \in {0, 1, 3}, d \in {0, 1} :
-        Len(Image(name[i])) >= k + d /\ SetSelf(i, k, Len(Image(name[i])) - k - d)
+  \/ \E i \in Slots, k \in {0, 2}, d \in {0, 1} :
+        \* (the whole image including its terminator, k = 0 /\ d = 0, would grow the name with every call)
+        \* from the plain pattern names only: the results are new names, not sources of further ones
+        name[i].kind = "text" /\ name[i].s \in {P1(n) : n \in Lens} /\
+        (d = 0 => k >= 1) /\ Len(Image(name[i])) >= k + d /\ SetSelf(i, k, Len(Image(name[i])) - k - d)
   \/ \E i \in Slots, j \in 0..NId : TInit(i, j, 0) \/ TInit(i, j, 1)
   \/ \E i \in Slots, j \in Slots : \E s \in Near(TextOf(j)) : Compare(i, s, "len")
   \/ \E i \in Slots, j \in Slots : Compare(i, TextOf(j), "cstr") \/ Compare(i, Append(TextOf(j), 7), "cstr")
